@@ -172,7 +172,7 @@ theorem FieldsRel.zip_mem {P Q : Nat → V → Prop} :
         exact ⟨q, by simp [hq], hrest⟩
 
 section
-variable {T : Table} {rec : Rec} (hrec : RecBad T rec) {asm : Asm} {st : List Nat} {a b : Nat}
+variable {T : Table} {rec : Rec} (hrec : RecBad T rec) {asm : Asm} {st : Stk} {a b : Nat}
   (ha : FO T a) (hb : FO T b)
 include hrec ha hb
 
@@ -185,7 +185,7 @@ theorem unionLeft_bad {vs : List Nat} (hta : T.types[a]? = some (.union vs)) {s'
   intro st1 st2 v hwf ⟨hav, hbv⟩
   obtain ⟨i, hi, hiv⟩ := (inh_union hta).mp hav
   obtain ⟨s1, s2, hr⟩ := hall i hi
-  exact hrec s1 st i b s2 hr (ha.union hta i hi) hb _ _ v hwf ⟨hiv, hbv⟩
+  exact hrec s1 _ i b s2 hr (ha.union hta i hi) hb _ _ v hwf ⟨hiv, hbv⟩
 
 theorem unionRight_bad {vs : List Nat} (htb : T.types[b]? = some (.union vs)) {s' : Asm}
     (h : unionRight Variant.current rec asm st a b vs = some (false, s')) : Disjoint T a b := by
@@ -199,7 +199,7 @@ theorem unionRight_bad {vs : List Nat} (htb : T.types[b]? = some (.union vs)) {s
 
 theorem tupleTuple_bad {i1 i2 : Nat} (hta : T.types[a]? = some (.tuple i1))
     (htb : T.types[b]? = some (.tuple i2)) {s' : Asm}
-    (h : tupleTuple T rec asm st i1 i2 = some (false, s')) : Disjoint T a b := by
+    (h : tupleTuple Variant.current T .any rec asm st i1 i2 = some (false, s')) : Disjoint T a b := by
   obtain ⟨info1, h1, hf1⟩ := ha.tuple hta
   obtain ⟨info2, h2, hf2⟩ := hb.tuple htb
   intro st1 st2 v hwf ⟨hav, hbv⟩
@@ -320,7 +320,7 @@ theorem partPart_bad {n1 n2 : Option Name} {fs1 fs2 : List (Name × Nat)}
 end
 
 /-- one unfolding: a `false` verdict in overlap mode on a first-order pair means disjoint -/
-theorem relStep_bad {T : Table} {rec : Rec} (hrec : RecBad T rec) {asm : Asm} {st : List Nat}
+theorem relStep_bad {T : Table} {rec : Rec} (hrec : RecBad T rec) {asm : Asm} {st : Stk}
     {a b : Nat} {ta tb : Ty} (ha : FO T a) (hb : FO T b) (hta : T.types[a]? = some ta)
     (htb : T.types[b]? = some tb) {s' : Asm}
     (h : relStep Variant.current T .any rec asm st a b ta tb = some (false, s')) : Disjoint T a b := by
